@@ -13,7 +13,14 @@ def gen_domain(rng):
     m = rng.choice([None, None, 1, 2, 3, 4, 5, 7, 10, 10, 13, 20, 25, 50, 99, 100, rng.randrange(1, 101)])
     meff = 10 if m is None else m
     r = rng.random()
-    if r < 0.40:
+    if 0.36 <= r < 0.40:
+        # tiny magnitudes: everything about ticks and nice() is relative to the span, nothing is absolute (seeded/C14o: niced
+        # ends rounded to 12 decimals)
+        span = 10 ** rng.uniform(-16, -9)
+        lo = rng.choice([0, 1, 1]) * rng.uniform(-1, 1) * span * 10 ** rng.uniform(0, 3) - span * rng.random()
+        hi = lo + span
+        tag = "random"
+    elif r < 0.40:
         span = 10 ** rng.uniform(-9, 12)
         off = rng.choice([0, 0, 1, 1, 1]) * rng.uniform(-1, 1) * min(1e9, span * 10 ** rng.uniform(0, 5))
         lo = off - span * rng.random()
